@@ -34,7 +34,8 @@ pub fn run(pool: &Pool, sc: &Value) -> Value {
     for s in sc["sigs"].as_array().unwrap() {
         let lab = s["label"].as_u64().unwrap() as usize;
         let mb = s["made_by"].as_u64().unwrap() as usize;
-        let label_id = if lab < npool { pool.keyid(lab) } else { pool.keyid(nk_unknown) };
+        // labels: pool ids, one unknown id, and (npool+1+i) the id of pool key i spelled in upper case
+        let label_id = if lab < npool { pool.keyid(lab) } else if lab == npool { pool.keyid(nk_unknown) } else { pool.keyid(lab - npool - 1).to_uppercase() };
         let made_by = if mb < npool { mb } else { nk_unknown - 1 };
         sigs.push(make_sig(pool, &signed, &other, made_by, &label_id, s["intact"].as_bool().unwrap(), s["over"].as_bool().unwrap()));
     }
